@@ -41,6 +41,7 @@ from fortls.ftypes import (
 )
 from fortls.helper_functions import (
     detect_fixed_format,
+    find_comment_start,
     find_paren_match,
     find_word_in_line,
     get_paren_level,
@@ -1155,7 +1156,9 @@ class FortranFile:
                 return ""
         else:
             if FRegex.FREE_OPENMP.match(line) is None:
-                line = line.split("!")[0]
+                comm_ind = find_comment_start(line)
+                if comm_ind >= 0:
+                    line = line[:comm_ind]
         return line
 
     def find_word_in_code_line(
